@@ -1158,6 +1158,16 @@ struct TemplateCore {
 
         if ((value == nullptr) ||
             !(value->CopyValueTo(*stream_, {Config::TemplatePrecision, QENTEM_TEMPLATE_DOUBLE_FORMAT}))) {
+            if ((tag.IDLength != SizeT8{0}) && (tag.Length == SizeT16(tag.IDLength))) {
+                // The bare loop variable stands for the member's key, as in {var:...}, only unescaped.
+                const LoopItem &item = loops_items_->Storage()[tag.Level];
+
+                if (item.HasKey) {
+                    stream_->Write(item.Key.First(), item.Key.Length());
+                    return;
+                }
+            }
+
             stream_->Write((content_ + t_offset), length);
         }
     }
